@@ -4,8 +4,8 @@
   A command is a *program*: the list of atomic segments between `await`s, built from the decorator stack
   the translator recovered (`Generated.Verb.guards`: one backend probe per `PathConditions` entry) followed
   by the hand-transcribed handler body / nested worker.  A fault at the k-th backend call raises
-  `PathIOError` there; the model unwinds exactly as `async with file, stream` does (only contexts that were
-  ENTERED are exited; stream first, then file) and the dispatcher answers 451.
+  `PathIOError` there; the model unwinds exactly as the worker's `async with` does (only contexts that were
+  ENTERED are exited; the order of the items is `Generated.Verb.workerContexts`, read off the source) and the dispatcher answers 451.
 -/
 import AioftpModel.Generated.Server
 
@@ -62,6 +62,20 @@ structure Shape where
 def mlsxCalls (isFile : Bool) : List Seg :=
   [.call .exists_, .call .stat, .call .isFile] ++ (if isFile then [] else [.call .isDir])
 
+/-- entering / leaving one item of the worker's `async with` (`path_io.open(…)` is awaited inside the
+    file item's `__aenter__`, `close` inside its `__aexit__`) -/
+def enterCtx : Ctx → List Seg
+  | .stream => [.enterStream]
+  | .file => [.call .open_, .enterFile]
+
+def exitCtx : Ctx → List Seg
+  | .stream => [.exitStream]
+  | .file => [.call .close, .exitFile]
+
+/-- items are entered left to right and left right to left, in the order the translator read off the source -/
+def enters (v : Verb) : List Seg := v.workerContexts.flatMap enterCtx
+def exits (v : Verb) : List Seg := v.workerContexts.reverse.flatMap exitCtx
+
 def body (v : Verb) (sh : Shape) : List Seg :=
   match v with
   | .cwd | .cdup => [.reply 250]
@@ -72,23 +86,23 @@ def body (v : Verb) (sh : Shape) : List Seg :=
   | .rnto => [.call .rename, .reply 250]
   | .mlst => mlsxCalls sh.targetIsFile ++ [.reply 250]
   | .list =>
-    [.reply 150, .takeData, .enterStream] ++
+    [.reply 150, .takeData] ++ enters .list ++
     sh.entries.flatMap (fun _ => [Seg.call .listStep, .call .exists_, .call .stat]) ++
-    [.call .listStep, .exitStream, .reply 226]
+    [.call .listStep] ++ exits .list ++ [.reply 226]
   | .mlsd =>
-    [.reply 150, .takeData, .enterStream] ++
+    [.reply 150, .takeData] ++ enters .mlsd ++
     sh.entries.flatMap (fun f => Seg.call .listStep :: mlsxCalls f) ++
-    [.call .listStep, .exitStream, .reply 200]
+    [.call .listStep] ++ exits .mlsd ++ [.reply 200]
   | .retr =>
-    [.reply 150, .takeData, .call .open_, .enterFile, .enterStream] ++
+    [.reply 150, .takeData] ++ enters .retr ++
     (if sh.offset then [.call .seek] else []) ++
     (List.replicate sh.blocks (Seg.call .read)) ++
-    [.call .read, .exitStream, .call .close, .exitFile, .reply 226]
+    [.call .read] ++ exits .retr ++ [.reply 226]
   | .stor | .appe =>
-    [.call .isDir, .reply 150, .takeData, .call .open_, .enterFile, .enterStream] ++
+    [.call .isDir, .reply 150, .takeData] ++ enters v ++
     (if sh.offset then [.call .seek] else []) ++
     (List.replicate sh.blocks (Seg.call .write)) ++
-    [.exitStream, .call .close, .exitFile, .reply 226]
+    exits v ++ [.reply 226]
   | .pwd => [.reply 257]
   | .type | .pbsz | .prot => [.reply 200]
   | .syst => [.reply 215]
